@@ -50,7 +50,7 @@ def run_shard(spec, acc):
     quick = spec["tier"] == "quick"
     mtab = dbx.lookups["MANUFACTURER_CODE"]
     sources = [10, 20, 30, 40]
-    for c in range(150 if quick else 500):
+    for c in range(150 if quick else 2000):
         pool = hist.Pool(dbx, rng, n_single=5, n_fast=4)
         mapping = rng.random() < 0.5
         mode = rng.choice(["none", "exclude", "include", "exclude", "include"])
